@@ -482,7 +482,7 @@ SerOK(T, x, d) ==
     [] T.k = "enum"  -> x.k = "enum" /\ x.e = T.name /\ x.i \in DOMAIN T.vs /\ d = T.vs[x.i]
     [] T.k = "vol"   -> x.k = "vol" /\ SerOK(VolAlts(T)[IF x.one = "T" THEN 1 ELSE 2], x.x, d)
     [] T.k = "ann"   -> SerOK(T.t, x, d)
-    [] T.k = "sub"   -> x.k = "sub" /\ SerOK(T.base, x.x, d)
+    [] T.k = "sub"   -> x.k = "sub" /\ (SerOK(T.base, x.x, d) \/ (d = x /\ x.x.k \in AtomKinds))   \* the base value, or (a scalar) itself
     [] T.k = "tvar"  ->
          (CASE T.var = "free"   -> d = x
             [] T.var = "bound"  -> SerOK(T.ts[1], x, d)
